@@ -110,13 +110,12 @@ def mon_lifecycle(rec, P, info):
     info["refused_requests"] = refused
     # snapshots agree with the log's shadow at the end of each tick (no out-of-band writes)
     # (checked at the end only: the shadow is a function of the whole log)
-    if rec.ticks and rec.exception is None:
-        last = rec.ticks[-1].post_exec
-        if last is not None:
-            for pid, states in last.states.items():
-                for i, st in enumerate(states):
-                    if shadow.get((pid, i), "pending") != st:
-                        P("C02:state-changed-outside-transition", f"end of run: {pid} operator {i} is {st}, the request log says {shadow.get((pid, i), 'pending')}")
+    for pid, p in rec.pipelines.items():
+        rs = p.runtime_status()
+        for o, st in rs.operator_states.items():
+            i = getattr(o, "_vidx", None)
+            if i is not None and shadow.get((pid, i), "pending") != st.value:
+                P("C02:state-changed-outside-transition", f"end of run: {pid} operator {i} is {st.value}, the request log says {shadow.get((pid, i), 'pending')}")
     # a completed operator is never handed to a container again
     done = set()
     for tr in rec.ticks:
